@@ -34,6 +34,10 @@ CHECKS = {
          "TLC model check of the relay-chain machine + trace validation of real builder calls"),
  "C15": ("6", "Dhcp4Build.tla: the DHCPv4 builders as ApplyAll(caller modifiers, ApplyAll(defaults, Base(xid))) over abstract packets; model-checked for reply/request correlation, renew/release rules and 'last modifier prevails' over small inputs x modifier lists; every recorded builder call (7 builders x generated/decoded inputs x 0..4 modifiers from 22 exported With* functions, modifier slice reused across calls) must equal Build(builder, input, modifiers)",
          "TLC model check of Dhcp4Build.tla + trace validation of real builder calls"),
+ "C08": ("6", "Lifecycle.tla: memory made explicit (fields own a copy or reference a buffer; Scribble is an environment action); model-checked with the wrong-design switches (aliased field, pooled encode buffer) that must fail; every recorded life of a real decoded value (decode from a caller-owned slice, observe, overwrite the slice with 5 patterns, observe, overwrite a returned encoding while holding another, observe) is validated by TLC: all observations equal the first, which equals Dec4/Dec6/LabelDecode of the original bytes",
+         "TLC model check of Lifecycle.tla + trace validation of decode/scribble/observe lives of real values"),
+ "C20": ("6", "Lifecycle.tla Read actions leave every observation unchanged (model-checked; a mutating read must fail); recorded lives of real values (constructed, decoded, standalone option values) with every reflected niladic exported method called, observations (encoding, value tree, printed form) before/between/after, printed before and after the first encoding, validated by TLC: observations constant, repeated calls return equal results",
+         "TLC model check of Lifecycle.tla + trace validation of read-only call sequences on real values"),
 }
 
 def main():
